@@ -14,12 +14,12 @@ theorem sim_list_succ {n : Nat} (ih : SimAt P P' n) {es es' : List Expr} {Γ : S
   cases es with
   | nil =>
     obtain ⟨rfl, rfl⟩ := simList_nil_inv hs
-    rw [evalList_nil]
-    exact ⟨.ok [] w', stable_succ (k := 0) (fun m _ => evalList_nil m P' ρ' w'), .nil, rfl, hw⟩
+    rw [evalList_nil_at]
+    exact ⟨.ok [] w', stable_succ (k := 0) (fun m _ => evalList_nil_at m P' ρ' w'), .nil, rfl, hw⟩
   | cons e es =>
     obtain ⟨e', rest', s1, ss1, rfl, h1, h2, rfl⟩ := simList_cons_inv hs
-    rw [evalList_cons] at hg ⊢
-    refine lift_shift (fun m => evalList_cons m P' ρ' w' e' rest') ?_
+    rw [evalList_cons_at] at hg ⊢
+    refine lift_shift (fun m => evalList_cons_at m P' ρ' w' e' rest') ?_
     refine sim_bind0 ih (ResRelL.failClosed _) h1 hρ hw ?_ hg
     intro v v' w1 w1' hv hsv hw1 _ hgK
     refine sim_bindL0 ih (ResRelL.failClosed _) h2 hρ hw1 ?_ hgK
@@ -37,26 +37,26 @@ theorem sim_arms_succ {n : Nat} (ih : SimAt P P' n) {arms arms' : List Arm} {d d
   | nil =>
     have := simArms_nil_inv h2
     subst this
-    rw [evalArms_nil] at hg ⊢
+    rw [evalArms_nil_at] at hg ⊢
     rcases simOpt_inv h3 with ⟨rfl, rfl⟩ | ⟨e, e', s1, rfl, rfl, h⟩
     · exact absurd hg not_good_stuck
     · obtain ⟨r', hst, hr⟩ := ih.expr h hρ hw hg
-      exact ⟨r', stable_shift (fun m => evalArms_nil m P' ρ' w' v' (some e')) hst, ResRel.weaken hr⟩
+      exact ⟨r', stable_shift (fun m => evalArms_nil_at m P' ρ' w' v' (some e')) hst, ResRel.weaken hr⟩
   | cons a rest =>
     cases a with
     | mk lhs body =>
       obtain ⟨lhs', body', rest', s1, rfl, hh, hb, hr⟩ := simArms_cons_inv h2
-      rw [evalArms_cons] at hg ⊢
+      rw [evalArms_cons_at] at hg ⊢
       have hm := armMatches_rel hh hv
       by_cases hmatch : armMatches lhs v = true
       · rw [if_pos hmatch] at hg ⊢
         obtain ⟨r', hst, hr'⟩ := ih.expr hb hρ hw hg
         refine ⟨r', stable_shift (fun m => ?_) hst, ResRel.weaken hr'⟩
-        rw [evalArms_cons, hm, if_pos hmatch]
+        rw [evalArms_cons_at, hm, if_pos hmatch]
       · rw [if_neg hmatch] at hg ⊢
         obtain ⟨r', hst, hr'⟩ := ih.arms hr h3 hρ hw hv hg
         refine ⟨r', stable_shift (fun m => ?_) hst, hr'⟩
-        rw [evalArms_cons, hm, if_neg hmatch]
+        rw [evalArms_cons_at, hm, if_neg hmatch]
 
 theorem fnOk_inv {f f' : Fn} (h : fnOk P P' f f' = true) :
     f'.params.map (·.1) = f.params.map (·.1) ∧ (∀ p, p ∈ f.params.map (·.1) → globalOk P P' p = true) ∧
